@@ -18,6 +18,7 @@ class Unit:
     def __init__(self, name):
         self.name = name
         self.lines = []  # (text, origin)
+        self.drift_hard = {}  # fn name -> proof hints of the overlay that could not be placed (the code changed shape)
         self.notes = []  # extraction notes
         self.items = []  # (path, sha)
         self.default_props = []
@@ -101,6 +102,10 @@ def build_unit(name):
         u.items.append(("%s :: %s" % (rel, " / ".join(path)), vlib.sha(w.hash_src)))
         for n in w.notes:
             u.notes.append("%s :: %s: %s" % (rel, path[-1], n))
+        for n in getattr(w, "drift_soft", []):
+            u.notes.append("%s :: %s: DRIFT (workaround not needed / not applicable any more, text verified as it stands): %s" % (rel, path[-1], n))
+        if getattr(w, "drift_hard", []):
+            u.drift_hard.setdefault(path[-1], []).extend(w.drift_hard)
 
     def _emit_piece(text, origin):
         ls = text.split("\n")
@@ -303,7 +308,7 @@ def run_unit(name, prop):
     res = {"cmd": "verus <generated %s.rs> --output-json --time --multiple-errors 50 --error-format=json" % name, "seconds": 0.0, "trusted": [], "obligations": []}
 
     def undecided(reason):
-        res["obligations"].append({"id": "verus.%s" % name, "engine": "verus/z3", "what": "unit " + name, "status": "undecided", "reason": reason, "seconds": 0})
+        res["obligations"].append({"id": "verus.%s" % name, "engine": "verus/z3", "what": "unit " + name, "status": "undecided", "reason": reason, "seconds": 0, "unit": name})
         return res
 
     try:
@@ -470,6 +475,11 @@ def run_unit(name, prop):
                 ob["status"] = "discharged"
         elif all(e["rlimit"] for e in mine):
             ob["status"], ob["reason"] = "undecided", "resource limit: " + mine[0]["message"]
+        elif u.drift_hard.get(fname) or u.drift_hard.get(re.sub(r"_body$", "", fname)):
+            # the function changed shape and loop invariants / proof blocks of the overlay could not be placed: a failed proof is then no
+            # verdict about the code (the driver falls back to the executable sibling harnesses of the unit)
+            dh = u.drift_hard.get(fname) or u.drift_hard.get(re.sub(r"_body$", "", fname))
+            ob["status"], ob["reason"] = "undecided", "proof hints lost (%s); first unproved: %s" % ("; ".join(dh)[:300], mine[0]["message"])
         else:
             ob["status"] = "failed"
             fc = []
@@ -497,15 +507,29 @@ def run_unit(name, prop):
 
 # witness search for failed Verus obligations: Verus gives no counterexample, so the failed contract's *sibling harness* (the same
 # postcondition, executable, in the hook module of the function) is run natively on seeded pseudo-random inputs of the real code.
-def witness_search(ob, seed):
+def witness_search(ob, seed, only=None, unit_wide=False):
     import registry
     fn = ob["id"].split(".")[-1]
-    cfg = registry.VERUS_WITNESS.get((ob.get("unit"), fn)) or registry.VERUS_WITNESS.get(("*", fn)) or registry.VERUS_WITNESS.get((ob.get("unit"), "*"))
+    if unit_wide:
+        cfg = registry.VERUS_WITNESS.get((ob.get("unit"), "*"))
+    else:
+        cfg = registry.VERUS_WITNESS.get((ob.get("unit"), fn)) or registry.VERUS_WITNESS.get(("*", fn))
+        if cfg is not None:
+            only = None  # harness of this very function: every clause is a clause of the failed contract
+        else:
+            cfg = registry.VERUS_WITNESS.get((ob.get("unit"), "*"))
     if cfg is None:
         return {"reproduced": False, "detail": "no native witness search registered for %s; the failed obligation and the verifier output are in this file" % ob["id"]}
-    last = None
-    for (crate, modpath, harness, nbytes, tries) in cfg:
-        r = vlib.native_search(crate, modpath, harness, nbytes, seed, tries=tries)
+    last = {"reproduced": False, "detail": "no sibling harness of %s carries clauses of this property" % ob["id"]}
+    for ent in cfg:
+        (crate, modpath, harness, nbytes, tries) = ent[:5]
+        flt = only
+        if len(ent) > 5 and only:
+            # harness whose clauses all belong to the listed properties (labels carry no tag)
+            if only not in ent[5]:
+                continue
+            flt = None
+        r = vlib.native_search(crate, modpath, harness, nbytes, seed, tries=tries, only=flt)
         last = {"crate": crate, "module": modpath, "harness": harness, "reproduced": r["reproduced"], "detail": r["detail"], "witness_bytes": r.get("witness"), "output_tail": r.get("output", "")[-800:]}
         if r["reproduced"]:
             return last
